@@ -542,6 +542,25 @@ def observable(o):
     ax = getattr(o, "axis", None)
     if ax is not None and hasattr(ax, "data"):
         out["axis.data"] = numpy.array(ax.data)
+    # values read through the units-managed getters (they convert with whatever manager the object consults)
+    nel = getattr(o, "nel", None)
+    if isinstance(nel, int) and hasattr(o, "get_energy") and not hasattr(o, "monomers"):
+        try:
+            out["get_energy"] = numpy.array([o.get_energy(n) for n in range(nel)], dtype=float)
+        except Exception:
+            pass
+    mons = getattr(o, "monomers", None)
+    if isinstance(mons, (list, tuple)):
+        for i, m in enumerate(mons):
+            try:
+                out["monomers[%d].get_energy" % i] = numpy.array([m.get_energy(n) for n in range(m.nel)], dtype=float)
+            except Exception:
+                pass
+    if hasattr(o, "get_reorganization_energy"):
+        try:
+            out["get_reorganization_energy"] = numpy.array([o.get_reorganization_energy()], dtype=float)
+        except Exception:
+            pass
     return out
 
 
@@ -593,6 +612,14 @@ def check_parcel_classes(chk, td):
                     except Exception as e:
                         chk.violation("parcel:original_unreadable", "%s: the ORIGINAL cannot be read after the contexts: %r" % (name, e), "monitor", case)
                     got = observable(o2)
+                    # ... and read under a units context that was active neither at saving nor at loading time
+                    for un in ("1/cm", "eV"):
+                        if want is None or (un == "1/cm" and "units" in (cs, cl)):
+                            continue
+                        with qr.energy_units(un):
+                            wu, gu = observable(o), observable(o2)
+                        want.update({"%s@%s" % (k, un): v for k, v in wu.items()})
+                        got.update({"%s@%s" % (k, un): v for k, v in gu.items()})
             except Exception as e:
                 chk.violation(sig, "%s saved in %s context and loaded in %s context: %s: %s"
                               % (name, cs, cl, type(e).__name__, str(e)[:160]), "monitor", case)
@@ -608,7 +635,7 @@ def check_parcel_classes(chk, td):
                 bad = [k for k in want if k not in got or got[k].shape != want[k].shape or
                        float(numpy.max(numpy.abs(got[k] - want[k])) if want[k].size else 0.0) > 1e-12 * max(1.0, float(numpy.max(numpy.abs(want[k]))) if want[k].size else 1.0)]
                 if bad:
-                    chk.violation(sig, "%s saved in %s context and loaded in %s context: %s read outside the contexts differ from the original's"
+                    chk.violation(sig, "%s saved in %s context and loaded in %s context: %s read outside the contexts (k@u: read inside energy_units(u)) differ from the original's"
                                   % (name, cs, cl, bad), "monitor", case)
             chk.case(("parcel", name, cs, cl), True, sample=case)
 
